@@ -151,9 +151,9 @@ def build_lib(variant):
         return ar
 
 
-def build_harness(name, variant, libs=(), extra=(), lang="c++", src=None):
+def build_harness(name, variant, libs=(), extra=(), lang="c++", src=None, ldflags=()):
     """Compile harness/<name>.cpp against the variant's carquet archive; returns binary path."""
-    cc, cxx, cflags, ldflags = VARIANTS[variant]
+    cc, cxx, cflags, ldflags_v = VARIANTS[variant]
     src = src or os.path.join(VERIF, "harness", name + ".cpp")
     with open(src, "rb") as f:
         srcb = f.read()
@@ -163,7 +163,7 @@ def build_harness(name, variant, libs=(), extra=(), lang="c++", src=None):
     os.makedirs(objdir, exist_ok=True)
     obj = os.path.join(objdir, "%s-%s-%s.o" % (name, variant, okey))
     lib = build_lib(variant)
-    bkey = sha(okey, os.path.basename(os.path.dirname(lib)), " ".join(libs))
+    bkey = sha(okey, os.path.basename(os.path.dirname(lib)), " ".join(libs), " ".join(ldflags))
     bindir = os.path.join(BUILD, "bin")
     os.makedirs(bindir, exist_ok=True)
     binp = os.path.join(bindir, "%s-%s-%s" % (name, variant, bkey))
@@ -178,7 +178,7 @@ def build_harness(name, variant, libs=(), extra=(), lang="c++", src=None):
             os.rename(tmp, obj)
             prune(objdir, "%s-%s-" % (name, variant), os.path.basename(obj))
         tmp = binp + ".tmp%d" % os.getpid()
-        run([cxx, obj, "-o", tmp] + ldflags + [lib] + ["-l" + l for l in libs] +
+        run([cxx, obj, "-o", tmp] + list(ldflags_v) + list(ldflags) + [lib] + ["-l" + l for l in libs] +
             ["-lz", "-lzstd", "-lpthread", "-lm"])
         os.rename(tmp, binp)
         prune(bindir, "%s-%s-" % (name, variant), os.path.basename(binp))
